@@ -129,11 +129,13 @@ def attrOpt (argMode : Bool) (a : Attribute) (l : Layout) : Option Attribute :=
   | .default => none
 
 theorem attrPart_rt {α} (K : Option Attribute → P α) (argMode : Bool) (a : Attribute) (l : Layout) {X : List Char}
-    (hX : NB X) (herr : Attribute.parse X = .err) :
+    (hX : NB X) (herr : attrOpt argMode a l = none → Attribute.parse X = .err) :
     (andThen (opt Attribute.parse) fun attr => andThen (opt blank) fun _ => K attr) ((rAttr argMode a l).1 ++ X) =
       K (attrOpt argMode a l) X := by
-  have hnone : (andThen (opt Attribute.parse) fun attr => andThen (opt blank) fun _ => K attr) X = K none X := by
-    rw [andThen_of_ok (opt_of_err herr), andThen_of_ok (opt_of_err (blank_err hX))]
+  have hnone : attrOpt argMode a l = none →
+      (andThen (opt Attribute.parse) fun attr => andThen (opt blank) fun _ => K attr) X = K none X := by
+    intro h
+    rw [andThen_of_ok (opt_of_err (herr h)), andThen_of_ok (opt_of_err (blank_err hX))]
   have hreq : ∀ l', (andThen (opt Attribute.parse) fun attr => andThen (opt blank) fun _ => K attr)
       (cs!"required" ++ ((rB1 l').1 ++ X)) = K (some .required) X := by
     intro l'
@@ -156,9 +158,9 @@ theorem attrPart_rt {α} (K : Option Attribute → P α) (argMode : Bool) (a : A
     | true =>
       simp only [if_true, rWith_fst, Bool.true_and]
       cases hf : l.pop.1.flag with
-      | true => simp only [if_true, rLit_fst, List.nil_append]; exact hnone
+      | true => simp only [if_true, rLit_fst, List.nil_append]; exact hnone (by simp [attrOpt, hf])
       | false => simp only [Bool.false_eq_true, if_false, rSeq_fst, rSeq_snd, rLit_fst, rLit_snd, List.append_assoc]; exact hreq _
-  | default => simp only [rAttr, rLit_fst, List.nil_append, attrOpt]; exact hnone
+  | default => simp only [rAttr, rLit_fst, List.nil_append, attrOpt]; exact hnone rfl
 
 /-- the field that `Field::parse` returns for a rendered field: in an argument list an omitted
 `required` is read as no requiredness (function.rs turns it back into `required`) -/
@@ -186,8 +188,10 @@ theorem fieldFollow_props {R : List Char} (h : FieldFollow R) :
 set_option maxHeartbeats 800000 in
 /-- `field_rt` -/
 theorem field_step {d : Nat} {f : Field} (hw : f.wf = true) (hsup : f.supported = true) (hd : f.depth < d)
-    (argMode : Bool) (hhead : f.ty.headIs cs!"required" = false ∧ f.ty.headIs cs!"optional" = false)
-    (last : Bool) (l : Layout) {bl R : List Char} (hbl : BT bl) (hR : FieldFollow R) (hlast : last = true → Sep R) :
+    (argMode : Bool) (last : Bool) (l : Layout)
+    (hhead : attrOpt argMode f.attr ((rB0 (rB0 l).2).2) = none →
+      f.ty.headIs cs!"required" = false ∧ f.ty.headIs cs!"optional" = false)
+    {bl R : List Char} (hbl : BT bl) (hR : FieldFollow R) (hlast : last = true → Sep R) :
     skip (opt blank) (Field.parse d) (bl ++ ((rField argMode f last l).1 ++ R)) = .ok (fieldRead argMode f l) R := by
   obtain ⟨id, name, attr, ty, dflt, anns⟩ := f
   simp only [Field.wf, Bool.and_eq_true, decide_eq_true_eq] at hw
@@ -230,7 +234,7 @@ theorem field_step {d : Nat} {f : Field} (hw : f.wf = true) (hsup : f.supported 
       (rGap ty.endsOpen (rType ty (rAttr argMode attr (rB0 (rB0 l).2).2).2).2).2 hR.1 hR.2.2.2.1
     rw [andThen_of_ok (fieldId_rt h0 h1 (rB0_BT _)),
       andThen_optBlank (rB0_BT _) (rAttr_NB _ _ _ (rType_NB hty _ _)),
-      attrPart_rt _ argMode attr _ (rType_NB hty _ _) (attribute_err_type hty hhead.1 hhead.2 _ _
+      attrPart_rt _ argMode attr _ (rType_NB hty _ _) (fun hn => attribute_err_type hty (hhead hn).1 (hhead hn).2 _ _
         (fun ho => by
           rcases hgap (rType ty (rAttr argMode attr (rB0 (rB0 l).2).2).2).2 with h | h
           · exact ((rGap_BT _ _).sep_append (Or.inl h)).noIdent
@@ -257,7 +261,7 @@ theorem field_step {d : Nat} {f : Field} (hw : f.wf = true) (hsup : f.supported 
       exact const_rt v hdf hsup d (by omega) _ _ (hcf _)
     rw [andThen_of_ok (fieldId_rt h0 h1 (rB0_BT _)),
       andThen_optBlank (rB0_BT _) (rAttr_NB _ _ _ (rType_NB hty _ _)),
-      attrPart_rt _ argMode attr _ (rType_NB hty _ _) (attribute_err_type hty hhead.1 hhead.2 _ _
+      attrPart_rt _ argMode attr _ (rType_NB hty _ _) (fun hn => attribute_err_type hty (hhead hn).1 (hhead hn).2 _ _
         (fun ho => by
           rcases hgap (rType ty (rAttr argMode attr (rB0 (rB0 l).2).2).2).2 with h | h
           · exact ((rGap_BT _ _).sep_append (Or.inl h)).noIdent
